@@ -171,7 +171,15 @@ func place(n *lib.Node, dir string) (string, error) {
 			}
 		}
 	}
-	p := filepath.Join(dir, "t")
+	// Every other case lives in a directory whose own name is made of the characters that entry
+	// names are drawn from: a hash that derives entry names from full paths by anything other than a
+	// proper relative-path computation (trimming, cut sets, string prefixes) then confuses entries
+	// with the directory they live in.
+	name := "t"
+	if caseCounter%2 == 0 {
+		name = "ab.c-hB#xy é"
+	}
+	p := filepath.Join(dir, name)
 	return p, lib.Materialize(n, p)
 }
 
